@@ -156,7 +156,7 @@ fn explore(prop: &str, profile: &'static str, vseed: u64, runs: u64, threads: us
             {
                 let seed = run_seed(vseed, profile, idx);
                 let prog = Arc::new(gen::generate(seed, if idx % 2 == 1 { &big } else { &cfg }));
-                let (_, r) = run_and_check(&prog);
+                let (trace, r) = run_and_check(&prog);
                 a.evaluations += 1;
                 a.stats.add(&r.stats);
                 a.max_trace = a.max_trace.max(r.trace_len);
@@ -168,7 +168,8 @@ fn explore(prop: &str, profile: &'static str, vseed: u64, runs: u64, threads: us
                     if a.samples.len() < 2 && idx < 64
                     {
                         a.samples.push(json!({ "profile": profile, "run_index": idx, "run_seed": seed, "trace_events": r.trace_len,
-                            "system_runs": r.stats.bodies, "commands_applied": r.stats.applies, "program": serde_json::to_value(&*prog).unwrap() }));
+                            "system_runs": r.stats.bodies, "commands_applied": r.stats.applies, "program": serde_json::to_value(&*prog).unwrap(),
+                            "observed_trace_head": trace.iter().filter(|e| !matches!(e, obs::Ev::Post(_))).take(40).map(|e| format!("{e:?}")).collect::<Vec<_>>() }));
                     }
                 }
                 for v in &r.verdicts
